@@ -63,12 +63,24 @@ pub mod sim {
         pub send_blocked: Cell<u64>,
         pub try_send_full: Cell<u64>,
         pub max_queued: Cell<usize>,
+        /// the last receiver is gone (its thread ended): nothing will ever be received again
+        pub rx_closed: Cell<bool>,
         idle_waiters: RefCell<Vec<Rc<BatchSemaphore>>>,
     }
 
     impl ChanCore {
         pub fn is_idle(&self) -> bool {
-            self.queued.get() == 0 && self.recv_waiting.get() > 0
+            self.rx_closed.get() || (self.queued.get() == 0 && self.recv_waiting.get() > 0)
+        }
+        /// Called when the last receiver is dropped.
+        pub fn receiver_gone(&self, scheduling_point_allowed: bool) {
+            self.rx_closed.set(true);
+            let waiters: Vec<Rc<BatchSemaphore>> = std::mem::take(&mut *self.idle_waiters.borrow_mut());
+            if scheduling_point_allowed {
+                for w in waiters {
+                    w.release(1);
+                }
+            }
         }
         /// Called by a receiver that found the queue empty and is about to block.
         pub fn receiver_about_to_block(&self) {
@@ -178,6 +190,7 @@ pub mod sim {
             send_blocked: Cell::new(0),
             try_send_full: Cell::new(0),
             max_queued: Cell::new(0),
+            rx_closed: Cell::new(false),
             idle_waiters: RefCell::new(Vec::new()),
         });
         STATE.with(|s| {
